@@ -248,3 +248,45 @@ Theorem C06_loop_overlap_inside :
       (iter_n n (for_step (exec_block orc (body' iv sp ins rest' next_i epi)) iv bargs ys' l s) M2).
 Proof. intros. eapply loop_inside; eassumption. Qed.
 Print Assumptions C06_loop_overlap_inside.
+
+(* ---- the model's LOOP rule itself (loop directly in the function body) ------------------------------------------------
+   C06_loop_overlap_inside_rule: whenever `loop_overlap p o nf = Some p'` and the decidable side condition
+   `loop_inside_side_ok p o nf` holds, the programs cut right behind the loop produce related traces for every
+   oracle and all inputs (every lb, step, trip count): every launch inside the rewritten loop (and in front of
+   it) observes the same registers, same number and order of launches / awaits / calls.
+   C06_loop_overlap_preserves: with SafeAfterLoop for what follows (`loop_overlap_side_ok`), the whole programs do.
+   Side condition (Model/C06LoopSide.v, evaluated on every real loop rewrite by the check): the statements in front
+   of the setup are exactly its arith chain; the rest of the body is flat and does not read the erased state as an
+   integer; integer values read are outside F = fresh ids + state/token ids and below nf; iter_args distinct;
+   iv / step / lb not rebound; state-typed positions bind ids of F.  Prologue (invariant for k = 0), iteration step,
+   induction on the trip count and the final result binding are all inside the proof. *)
+From Snax Require Import Model.C06LoopSide Proofs.C06LoopGenProofs.
+
+Theorem C06_loop_overlap_inside_rule :
+  forall orc p o nf p' args,
+  loop_overlap p o nf = Some p' ->
+  loop_inside_side_ok p o nf = true ->
+  exists pre x post pro x',
+    p_body p = pre ++ x :: post /\ p_body p' = pre ++ pro ++ x' :: post
+    /\ loop_overlap_for (p_body p) o nf x = Some (pro, x')
+    /\ trace_sim_b (run orc (mkProg (p_params p) (pre ++ [x])) args)
+                   (run orc (mkProg (p_params p) (pre ++ pro ++ [x'])) args) = true.
+Proof. exact loop_overlap_inside_rule. Qed.
+Print Assumptions C06_loop_overlap_inside_rule.
+
+Theorem C06_loop_overlap_preserves :
+  forall orc p o nf p' args,
+  loop_overlap p o nf = Some p' ->
+  loop_overlap_side_ok p o nf = true ->
+  trace_sim_b (run orc p args) (run orc p' args) = true.
+Proof. exact loop_overlap_preserves. Qed.
+Print Assumptions C06_loop_overlap_preserves.
+
+(* non-vacuity: the F4 probe is inside the inside-condition (and outside SafeAfterLoop); the re-configured variant
+   satisfies the full side condition *)
+Example C06_loop_rule_nonvacuous :
+  loop_inside_side_ok f4_before 9%nat 15%nat = true
+  /\ loop_overlap_side_ok f4_before 9%nat 15%nat = false
+  /\ loop_overlap_side_ok C06_safe_before 9%nat 21%nat = true.
+Proof. repeat split; vm_compute; reflexivity. Qed.
+Print Assumptions C06_loop_rule_nonvacuous.
